@@ -643,7 +643,7 @@ class SplineGeometry(Geometry):
                 if not isinstance(cpt, check_for):
                     raise ValueError("Element number " + str(idx) + " is not a valid input")
                 if len(cpt) != dimension:
-                    raise ValueError("The input must be " + str(self._dimension) + " dimensional list - " + str(cpt) +
+                    raise ValueError("The input must be " + str(dimension) + " dimensional list - " + str(cpt) +
                                      " is not a valid control point")
                 # Convert to list of floats
                 pts_out[idx] = [float(coord) for coord in cpt]
@@ -659,7 +659,7 @@ class SplineGeometry(Geometry):
         array_init = kwargs.get('array_init', [[] for _ in range(len(ctrlpts))])
         array_check_for = kwargs.get('array_check_for', (list, tuple))
         callback_func = kwargs.get('callback', validate_and_clean)
-        self._dimension = kwargs.get('dimension', len(ctrlpts[0]))
+        dimension = kwargs.get('dimension', len(ctrlpts[0]))
 
         # Pop existing keywords from kwargs dict
         existing_kws = ['array_init', 'array_check_for', 'callback', 'dimension']
@@ -667,9 +667,15 @@ class SplineGeometry(Geometry):
             if ekw in kwargs:
                 kwargs.pop(ekw)
 
-        # Set control points and sizes
-        self._control_points = callback_func(ctrlpts, array_check_for, self._dimension, array_init, **kwargs)
-        self._control_points_size = [int(arg) for arg in args]
+        # Validate the input first: a request which is refused leaves the geometry as it is
+        control_points = callback_func(ctrlpts, array_check_for, dimension, array_init, **kwargs)
+        control_points_size = [int(arg) for arg in args]
+
+        # Clean up the geometry and set the control points and sizes
+        self.reset(ctrlpts=True, evalpts=True)
+        self._dimension = dimension
+        self._control_points = control_points
+        self._control_points_size = control_points_size
 
     @abc.abstractmethod
     def render(self, **kwargs):
@@ -967,10 +973,7 @@ class Curve(SplineGeometry):
         if self.rational and len(ctrlpts[0]) < 3:
             raise GeomdlException("Rational curves expect weighted control points, e.g. (x * w, y * w, w)")
 
-        # Clean up the curve and control points lists
-        self.reset(ctrlpts=True, evalpts=True)
-
-        # Call parent function
+        # Call parent function (validates the points, then cleans up the curve and sets the control points)
         super(Curve, self).set_ctrlpts(ctrlpts, **kwargs)
 
     def render(self, **kwargs):
@@ -1082,6 +1085,7 @@ class Curve(SplineGeometry):
 
         if reset_ctrlpts:
             self._control_points = self._init_array()
+            self._control_points_size = [0]
             self._bounding_box = self._init_array()
 
         if reset_evalpts:
@@ -1867,10 +1871,7 @@ class Surface(SplineGeometry):
         if self.rational and len(ctrlpts[0]) < 3:
             raise GeomdlException("Rational surfaces expect weighted control points, e.g. (x * w, y * w, z * w, w)")
 
-        # Clean up the surface and control points
-        self.reset(evalpts=True, ctrlpts=True)
-
-        # Call parent function
+        # Call parent function (validates the points, then cleans up the surface and sets the control points)
         super(Surface, self).set_ctrlpts(ctrlpts, *args, **kwargs)
 
     def render(self, **kwargs):
@@ -2973,10 +2974,7 @@ class Volume(SplineGeometry):
         if self.rational and len(ctrlpts[0]) < 4:
             raise GeomdlException("Rational volumes expect weighted control points, e.g. (x * w, y * w, z * w, w)")
 
-        # Clean up the surface and control points
-        self.reset(evalpts=True, ctrlpts=True)
-
-        # Call parent function
+        # Call parent function (validates the points, then cleans up the volume and sets the control points)
         super(Volume, self).set_ctrlpts(ctrlpts, *args, **kwargs)
 
     def render(self, **kwargs):
